@@ -56,7 +56,7 @@ CLAIMS["C04"] = ("other",
     "bounded by sequence length / mode count; networkx sorts trusted to return linear extensions of the DAG",
     "bounded exhaustive enumeration against an independent dependency oracle (stand-in for contracts)", "DESIGN.md 5/C04")
 CLAIMS["C19"] = ("other",
-    "sample_to_event and orbit_to_sample are proved for lists of arbitrary length (exact integer spec). Everything else is a "
+    "sample_to_event, orbit_to_sample and sample.postselect (samples opaque, sum under its library contract; result = order-preserving filter of exactly the samples whose total lies in [min,max]) are proved for lists of arbitrary length (exact integer spec). Everything else is a "
     "BOUNDED stand-in with independent oracles: partitions (n<=35/60), exact multinomial cardinalities (orbits of n<=8, "
     "modes<=60/200), conversions (<=4 modes), clique grow/swap/shrink and subgraph resize on every labelled graph with <=4/5 "
     "nodes with EVERY outcome of every random choice explored and compared with reference implementations of the documented "
